@@ -40,18 +40,13 @@ func init() {
 			"database-stored integrations are stored complete (with the identity columns) and their tables exist; database-stored sources get the defaults the loader gives them",
 			"runners end by reaching a configured stop block; wall-clock appears only as watchdogs (inconclusive)",
 		},
-		NCases: func(tier string) int {
-			if tier == "thorough" {
-				return 800
-			}
-			return 64
-		},
+		NCases: func(tier string) int { return c20Lifecycles(tier) + 1 },
 		Run:              c20Run,
 		CrashIsViolation: true,
 		CaseTimeoutS:     90,
 		MaxProcs:         8,
 		MinObs: func(tier string) map[string]int64 {
-			return map[string]int64{"startups": 50, "restarts": 60, "task_sets_compared": 80, "events": 3000, "unknown_source_cases": 5, "db_entries": 30, "name_clash_cases": 10, "restarts_at_hook_points": 15, "dashboard_submissions": 8}
+			return map[string]int64{"startups": 50, "restarts": 60, "task_sets_compared": 80, "events": 3000, "unknown_source_cases": 5, "db_entries": 30, "name_clash_cases": 10, "restarts_at_hook_points": 15, "dashboard_submissions": 8, "overlapping_restarts": 4, "binary_unknown_source_exits_nonzero": 2}
 		},
 	})
 }
@@ -166,7 +161,18 @@ func c20Analyse(c *vk.Case, evs []c20Event, detail map[string]any) (gens [][]*sh
 	return gens
 }
 
+func c20Lifecycles(tier string) int {
+	if tier == "thorough" {
+		return 800
+	}
+	return 64
+}
+
 func c20Run(c *vk.Case) {
+	if c.Index >= c20Lifecycles(c.Tier) {
+		c20Binary(c)
+		return
+	}
 	r := c.R
 	ctx := context.Background()
 	pg, err := fakepg.New()
@@ -428,7 +434,18 @@ func c20Run(c *vk.Case) {
 		passed   = map[string]int{} // how many times each point was passed
 		startups = 0                // successful start-up signals received so far
 	)
-	shovel.VerifSetSink(log.sink, func(name string, t *shovel.Task) {
+	atEvent := map[string]func(){}
+	evSink := func(ev shovel.VerifEvent) {
+		log.sink(ev)
+		pmu.Lock()
+		f := atEvent[ev.Name]
+		delete(atEvent, ev.Name)
+		pmu.Unlock()
+		if f != nil {
+			f()
+		}
+	}
+	shovel.VerifSetSink(evSink, func(name string, t *shovel.Task) {
 		pmu.Lock()
 		passed[name]++
 		f := atPoint[name]
@@ -515,7 +532,7 @@ func c20Run(c *vk.Case) {
 	nre := r.Range(1, 4)
 	var timing []string
 	for k := 0; k < nre && len(c.Res.Violations) == 0; k++ {
-		mode := r.Intn(5)
+		mode := r.Intn(6)
 		// optionally store something new first
 		if r.Chance(1, 2) {
 			for _, ig := range igs {
@@ -618,6 +635,72 @@ func c20Run(c *vk.Case) {
 					rerr, pan = doRestart()
 					timing = append(timing, "random")
 				}
+			}
+		case 5: // a second integration is stored and a second restart requested while the first restart has read the
+			// configuration (its tasks are loaded) but has not signalled start-up yet: both report success, so the
+			// second integration must run afterwards
+			var late *c20IG
+			if i := len(igs); i < len(namePoolIG) {
+				st := uint64(r.Range(1, 5))
+				late = &c20IG{Name: namePoolIG[i], Table: namePoolTbl[i], Enabled: true, InDB: true, DBStart: st, DBEnabled: true}
+				late.Refs = []model.SrcRef{{Name: srcs[0].Name, Start: st, Stop: st + uint64(r.Range(12, 25))}}
+			}
+			if late == nil || !settled() {
+				rerr, pan = doRestart()
+				timing = append(timing, "random")
+				break
+			}
+			res := make(chan struct{})
+			var (
+				rerr2  error
+				pan2   any
+				fired  bool
+				stored bool
+			)
+			pmu.Lock()
+			atEvent["task-loaded"] = func() {
+				fired = true
+				stored = storeIG(late, false)
+				if !stored {
+					close(res)
+					return
+				}
+				go func() {
+					rerr2, pan2 = doRestart()
+					close(res)
+				}()
+				time.Sleep(3 * time.Millisecond)
+			}
+			pmu.Unlock()
+			rerr, pan = doRestart()
+			pmu.Lock()
+			delete(atEvent, "task-loaded")
+			pmu.Unlock()
+			timing = append(timing, "second-restart-while-first-has-loaded")
+			if !fired {
+				break // the restarted generation has no task: nothing to interleave with
+			}
+			select {
+			case <-res:
+			case <-time.After(60 * time.Second):
+				c.Inconclusive("the second restart did not return")
+				return
+			}
+			if !stored {
+				return
+			}
+			igs = append(igs, late)
+			c.Obs("restarts", 1)
+			c.Obs("restarts_at_hook_points", 1)
+			c.Obs("overlapping_restarts", 1)
+			if pan == nil && rerr == nil {
+				startups++
+			}
+			if pan2 != nil {
+				pan = pan2
+			}
+			if rerr2 != nil {
+				rerr = rerr2
 			}
 		case 3, 4: // immediately after the previous start-up signal: Run has signalled but not yet re-armed
 			if !settled() {
